@@ -264,6 +264,14 @@ Open Scope Q_scope.
 Definition check1 (c : list bat * option Q * option Q) : bool :=
   let '(bs, es, ec) := c in optQ_eqb (soc_calc bs) es && optQ_eqb (cap_calc bs) ec.
 Definition check (c : list (list bat * option Q * option Q)) : bool := forallb check1 c.
+(* integration stream: per checkpoint the snapshot of the pool (who is working, whose data is
+   streaming, the latest metrics) and the latest value each REQUESTED stream has emitted
+   (outer None = stream not requested yet; "nothing emitted so far" is rendered as inner None) *)
+Definition check_pool1 (c : list bat * option (option Q) * option (option Q)) : bool :=
+  let '(bs, es, ec) := c in
+  match es with Some e => optQ_eqb (soc_calc bs) e | None => true end &&
+  match ec with Some e => optQ_eqb (cap_calc bs) e | None => true end.
+Definition check_pool (c : list (list bat * option (option Q) * option (option Q))) : bool := forallb check_pool1 c.
 """
 
 
@@ -469,3 +477,346 @@ class PoolMetricsStream(Stream):
         if obs.get("float") != "ok":
             out.append(f"float_{obs.get('float')}")
         return out
+
+
+# ----------------------------------------------------------------------------- integration stream
+# A real BatteryPoolReferenceStore + BatteryPool (pool.soc / pool.capacity -> SendOnUpdate ->
+# LatestBatteryMetricsFetcher -> calculators) wired to an in-process fake microgrid on
+# async_solipsism virtual time.  The harness controls the battery status channel and the
+# component data channels; a script varies the ORDER of status messages, first requests of the
+# metric streams, metric changes and batteries whose data stops / turns NaN.
+#
+# Case (JSON): {"pool": [battery ids], "init": {"<id>": D | None}, "script": [OP, ...]}
+#   D  = {"cap": V, "lo": V, "hi": V, "soc": V}      V = [num, den] | "nan"      (None = silent at start)
+#   OP = {"op": "status", "working": [ids]} | {"op": "request", "what": "soc" | "capacity"}
+#      | {"op": "data", "id": b, "d": D} | {"op": "silence", "id": b} | {"op": "resume", "id": b}
+# After every OP the scenario waits SETTLE virtual seconds (longer than the fetchers' 2 s data
+# timeout + the aggregator's 2 s start delay + the 0.5 s streaming period) and records the latest
+# value each requested stream has emitted; that value must be the documented aggregate of the
+# snapshot at that moment (batteries working per the LAST status message and currently streaming
+# complete data).
+SETTLE = 6.0
+PERIOD = 0.5
+BASE_TS = datetime(2020, 1, 1, tzinfo=timezone.utc)
+
+
+def _pool_imports():
+    import async_solipsism
+    from datetime import timedelta
+    from frequenz.channels import Broadcast
+    from frequenz.client.microgrid import (BatteryComponentState, BatteryData, BatteryRelayState, Component,
+                                           ComponentCategory, Connection, InverterType)
+    from frequenz.sdk._internal._channels import ChannelRegistry
+    from frequenz.sdk.microgrid import connection_manager
+    from frequenz.sdk.microgrid._power_distributing import ComponentPoolStatus
+    from frequenz.sdk.microgrid.component_graph import _MicrogridComponentGraph
+    from frequenz.sdk.timeseries.battery_pool import BatteryPool
+    from frequenz.sdk.timeseries.battery_pool._battery_pool_reference_store import BatteryPoolReferenceStore
+    return NS(**locals())
+
+
+def snapshots(case):
+    """Independent bookkeeping: the pool's state after each script step."""
+    working = set()                       # BatteryPoolReferenceStore starts with no working battery
+    data = {int(k): (None if v is None else dict(v)) for k, v in case["init"].items()}
+    silent = {b for b, v in data.items() if v is None}
+    last = {b: v for b, v in data.items() if v is not None}
+    requested = set()
+    out = []
+    for op in case["script"]:
+        k = op["op"]
+        if k == "status":
+            working = set(op["working"]) & set(case["pool"])
+        elif k == "request":
+            requested.add(op["what"])
+        elif k == "data":
+            last[op["id"]] = dict(op["d"])
+            silent.discard(op["id"])
+        elif k == "silence":
+            silent.add(op["id"])
+        elif k == "resume":
+            if op["id"] in last:
+                silent.discard(op["id"])
+        bats = []
+        for b in sorted(case["pool"]):
+            d = last.get(b)
+            streaming = b not in silent and d is not None
+            dd = d if streaming else {"cap": None, "lo": None, "hi": None, "soc": None}
+            # a silent battery stays a key of the cache, with empty metrics (fetcher timeout)
+            bats.append({"id": b, "working": b in working, "present": True, **{f: dd[f] for f in FIELDS}})
+        out.append({"bats": bats, "requested": sorted(requested)})
+    return out
+
+
+def run_pool(case):
+    I = _pool_imports()
+    pool_ids = sorted(case["pool"])
+
+    class Api:
+        def __init__(self):
+            self.ch = {}
+
+        def chan(self, cid):
+            if cid not in self.ch:
+                self.ch[cid] = I.Broadcast(name=f"data-{cid}")
+            return self.ch[cid]
+
+        async def battery_data(self, cid, maxsize=50):
+            return self.chan(cid).new_receiver(limit=maxsize)
+
+        async def inverter_data(self, cid, maxsize=50):
+            return self.chan(cid).new_receiver(limit=maxsize)
+
+    comps = {I.Component(1, I.ComponentCategory.GRID), I.Component(2, I.ComponentCategory.METER)}
+    conns = {I.Connection(1, 2)}
+    for b in pool_ids:
+        inv = 1000 + b
+        comps |= {I.Component(inv, I.ComponentCategory.INVERTER, I.InverterType.BATTERY), I.Component(b, I.ComponentCategory.BATTERY)}
+        conns |= {I.Connection(2, inv), I.Connection(inv, b)}
+    api = Api()
+    fake = NS(component_graph=I._MicrogridComponentGraph(comps, conns), api_client=api)
+
+    async def scenario():
+        import asyncio as aio
+        loop = aio.get_running_loop()
+        status = I.Broadcast(name="battery-status", resend_latest=True)
+        status_tx = status.new_sender()
+        unused = I.Broadcast(name="unused")
+        store = I.BatteryPoolReferenceStore(
+            channel_registry=I.ChannelRegistry(name="verif"), resampler_subscription_sender=unused.new_sender(),
+            batteries_status_receiver=status.new_receiver(limit=1), power_manager_requests_sender=unused.new_sender(),
+            power_manager_bounds_subscription_sender=unused.new_sender(), power_distribution_results_fetcher=unused,
+            min_update_interval=I.timedelta(seconds=0.2), batteries_id=set(pool_ids))
+        pool = I.BatteryPool(pool_ref_store=store, name="verif", priority=5, set_operating_point=False)
+        cur = {int(k): (None if v is None else dict(v)) for k, v in case["init"].items()}
+        silent = {b for b, v in cur.items() if v is None}
+        senders = {b: api.chan(b).new_sender() for b in pool_ids}
+        val = lambda v: math.nan if v == "nan" or v is None else X(F(v[0], v[1]))
+
+        async def streamer():
+            while True:
+                for b in pool_ids:
+                    d = cur.get(b)
+                    if b in silent or d is None:
+                        continue
+                    await senders[b].send(I.BatteryData(
+                        component_id=b, timestamp=BASE_TS + I.timedelta(seconds=loop.time()),
+                        soc=val(d["soc"]), soc_lower_bound=val(d["lo"]), soc_upper_bound=val(d["hi"]), capacity=val(d["cap"]),
+                        power_inclusion_lower_bound=-1000.0, power_exclusion_lower_bound=0.0,
+                        power_inclusion_upper_bound=1000.0, power_exclusion_upper_bound=0.0, temperature=20.0,
+                        relay_state=I.BatteryRelayState.CLOSED, component_state=I.BatteryComponentState.IDLE, errors=[]))
+                await aio.sleep(PERIOD)
+
+        logs = {"soc": [], "capacity": []}
+        tasks = [aio.create_task(streamer())]
+
+        async def collect(what, rx):
+            async for smp in rx:
+                v = smp.value
+                if v is not None:
+                    v = v.as_percent() if what == "soc" else v.as_watt_hours()
+                logs[what].append([round(loop.time(), 3), None if v is None else enc(to_frac(v))])
+
+        checkpoints = []
+        try:
+            for op in case["script"]:
+                k = op["op"]
+                if k == "status":
+                    await status_tx.send(I.ComponentPoolStatus(working=set(op["working"]), uncertain=set()))
+                elif k == "request":
+                    if not any(t.get_name() == op["what"] for t in tasks):
+                        fetcher = pool.soc if op["what"] == "soc" else pool.capacity
+                        tasks.append(aio.create_task(collect(op["what"], fetcher.new_receiver()), name=op["what"]))
+                elif k == "data":
+                    cur[op["id"]] = dict(op["d"])
+                    silent.discard(op["id"])
+                elif k == "silence":
+                    silent.add(op["id"])
+                elif k == "resume":
+                    if cur.get(op["id"]) is not None:
+                        silent.discard(op["id"])
+                await aio.sleep(SETTLE)
+                checkpoints.append({w: (["none-yet"] if not logs[w] else [logs[w][-1][1]]) for w in ("soc", "capacity")
+                                    if any(t.get_name() == w for t in tasks)})
+        finally:
+            for t in tasks:
+                t.cancel()
+            await aio.gather(*tasks, return_exceptions=True)
+            await store.stop()
+        return {"checkpoints": checkpoints, "emitted": {w: len(v) for w, v in logs.items()}}
+
+    import asyncio as aio
+    old = I.connection_manager._CONNECTION_MANAGER
+    I.connection_manager._CONNECTION_MANAGER = fake
+    try:
+        with aio.Runner(loop_factory=I.async_solipsism.EventLoop) as runner:
+            return runner.run(scenario())
+    finally:
+        I.connection_manager._CONNECTION_MANAGER = old
+
+
+def gen_pool_case(rng):
+    n = rng.choice([1, 2, 2, 3, 3, 4])
+    pool = sorted(rng.sample(range(3, 30), n))
+
+    def gen_d(allow_nan=True):
+        b = gen_bat(rng, 0, True)
+        d = {f: (b[f] if b[f] is not None else "nan") for f in FIELDS}
+        if not allow_nan:
+            d = {f: (enc(F(50)) if v == "nan" else v) for f, v in d.items()}
+        return d
+    init = {str(b): (None if rng.random() < 0.1 else gen_d(rng.random() < 0.5)) for b in pool}
+    subset = lambda: sorted(b for b in pool if rng.random() < 0.65)
+    script = []
+    # the order of the first status and the first requests is the point: draw their positions freely
+    core = [{"op": "request", "what": "soc"}, {"op": "request", "what": "capacity"}]
+    if rng.random() < 0.9:
+        core.append({"op": "status", "working": subset() if rng.random() < 0.7 else list(pool)})
+    rng.shuffle(core)
+    script += core
+    for _ in range(rng.randint(1, 4)):
+        r = rng.random()
+        b = rng.choice(pool)
+        if r < 0.4:
+            script.append({"op": "status", "working": subset()})
+        elif r < 0.65:
+            script.append({"op": "data", "id": b, "d": gen_d()})
+        elif r < 0.85:
+            script.append({"op": "silence", "id": b})
+        else:
+            script.append({"op": "resume", "id": b})
+    if rng.random() < 0.3:  # sometimes drop one of the requests / move it to the very end
+        i = next(k for k, o in enumerate(script) if o["op"] == "request")
+        script.append(script.pop(i))
+    return {"pool": pool, "init": init, "script": script}
+
+
+def pool_boundary_cases():
+    D = lambda cap, lo, hi, soc: {"cap": enc(F(cap)), "lo": enc(F(lo)), "hi": enc(F(hi)), "soc": enc(F(soc))}
+    init = {"5": D(1000, 10, 90, 50), "8": D(3000, 10, 90, 90)}
+    R = lambda w: {"op": "request", "what": w}
+    S = lambda *w: {"op": "status", "working": list(w)}
+    return [
+        # status with a non-working battery first, metric streams requested only afterwards, status never repeated
+        {"pool": [5, 8], "init": init, "script": [S(5), R("capacity"), R("soc")]},
+        # requests first, status afterwards
+        {"pool": [5, 8], "init": init, "script": [R("capacity"), R("soc"), S(5), S(5, 8), S(8)]},
+        # no status at all: nothing is known to work
+        {"pool": [5, 8], "init": init, "script": [R("soc"), R("capacity")]},
+        # a working battery goes silent, comes back; a metric turns NaN
+        {"pool": [5, 8], "init": init, "script": [S(5, 8), R("soc"), R("capacity"), {"op": "silence", "id": 8},
+                                                 {"op": "resume", "id": 8},
+                                                 {"op": "data", "id": 5, "d": {**D(1000, 10, 90, 50), "soc": "nan"}}]},
+    ]
+
+
+class PoolIntegrationStream(Stream):
+    name = "pool"
+    coq_header = HEADER
+    check_fn = "check_pool"
+    n_quick = 400
+    n_thorough = 5000
+
+    def gen(self, rng, tier):
+        yield from pool_boundary_cases()
+        for _ in range(self.n_quick if tier == "quick" else self.n_thorough):
+            yield gen_pool_case(rng)
+
+    def run_impl(self, case):
+        try:
+            return run_pool(case)
+        except Exception as exc:
+            return {"error": f"{type(exc).__name__}: {exc}"}
+
+    @staticmethod
+    def _pairs(case, obs):
+        for i, (snap, cp) in enumerate(zip(snapshots(case), obs["checkpoints"])):
+            got = {w: (None if cp[w] == ["none-yet"] else cp[w][0]) for w in cp}
+            yield i, snap, got
+
+    def to_coq(self, case, obs):
+        if "error" in obs:
+            return None
+        items = []
+        for _, snap, got in self._pairs(case, obs):
+            f = lambda w: f"(Some {copt(fr(got[w]), cQ)})" if w in got else "None"
+            items.append(f"({c_bats(snap['bats'])}, {f('soc')}, {f('capacity')})")
+        return "[" + "; ".join(items) + "]"
+
+    def oracle(self, case, obs):
+        if "error" in obs:
+            return [{"what": f"crash: the pool wiring raised {obs['error']}", "finding": None}]
+        out = []
+        for i, snap, got in self._pairs(case, obs):
+            bats = snap["bats"]
+            if set(got) != set(snap["requested"]):
+                out.append({"what": f"pool: step {i}: streams observed {sorted(got)} but requested {snap['requested']}", "finding": None})
+            if "capacity" in got:
+                doc = sum((fr(b["cap"]) * (fr(b["hi"]) - fr(b["lo"])) / 100 for b in bats if q_cap(b)), F(0)) if any(q_cap(b) for b in bats) else None
+                if fr(got["capacity"]) != doc:
+                    out.append({"what": f"pool: after step {i} ({case['script'][i]}) the capacity stream's latest value is "
+                                        f"{fr(got['capacity'])}, the documented aggregate of the batteries working and reporting at "
+                                        f"that time {[b['id'] for b in bats if q_cap(b)]} is {doc}", "finding": None})
+            if "soc" in got:
+                soc = fr(got["soc"])
+                quals = [b for b in bats if q_soc(b)]
+                if not quals:
+                    doc, ok = None, soc is None
+                else:
+                    used, total = totals(bats)
+                    if abs(total) <= TOL:
+                        doc, ok = F(0), soc == 0
+                    elif not limits_ok(bats):
+                        doc, ok = "n/a (nearly equal limits)", soc is not None
+                    else:
+                        doc = used / total
+                        ok = soc is not None and (soc == doc or (soc == 100 and isclose_q(doc, F(100))))
+                if not ok:
+                    out.append({"what": f"pool: after step {i} ({case['script'][i]}) the SoC stream's latest value is {soc}, the "
+                                        f"documented aggregate of the batteries working and reporting at that time "
+                                        f"{[b['id'] for b in quals]} is {doc}", "finding": None})
+        return out
+
+    def show_term(self, case, obs):
+        if "error" in obs:
+            return None
+        return "[" + "; ".join(f"(soc_calc {c_bats(s['bats'])}, cap_calc {c_bats(s['bats'])})" for s in snapshots(case)) + "]"
+
+    def key(self, case, obs):
+        if "error" in obs or not any(cp for cp in obs["checkpoints"]):
+            return None
+        return json.dumps(case, sort_keys=True)
+
+    def labels(self, case, obs):
+        if "error" in obs:
+            return ["impl_error"]
+        sc = case["script"]
+        out = [f"pool_size={len(case['pool'])}", f"steps={len(sc)}"]
+        first_status = next((i for i, o in enumerate(sc) if o["op"] == "status"), None)
+        first_req = next((i for i, o in enumerate(sc) if o["op"] == "request"), None)
+        if first_status is None:
+            out.append("no_status_message")
+        elif first_req is not None:
+            out.append("status_before_first_request" if first_status < first_req else "request_before_first_status")
+            if first_status < first_req and set(sc[first_status]["working"]) != set(case["pool"]):
+                out.append("first_status_has_non_working_battery_before_request")
+        out += sorted({f"op_{o['op']}" for o in sc})
+        if any(v is None for v in case["init"].values()):
+            out.append("battery_silent_from_start")
+        if any(d == "nan" for v in case["init"].values() if v for d in v.values()) or any(
+                d == "nan" for o in sc if o["op"] == "data" for d in o["d"].values()):
+            out.append("nan_metric")
+        if any(cp.get("soc") == ["none-yet"] or cp.get("capacity") == ["none-yet"] for cp in obs["checkpoints"]):
+            out.append("nothing_emitted_yet_at_some_checkpoint")
+        return out
+
+    def shrink(self, case):
+        sc = case["script"]
+        for i in range(len(sc)):
+            yield {**case, "script": sc[:i] + sc[i + 1:]}
+        for b in case["pool"]:
+            if len(case["pool"]) > 1:
+                yield {"pool": [x for x in case["pool"] if x != b],
+                       "init": {k: v for k, v in case["init"].items() if int(k) != b},
+                       "script": [({**o, "working": [x for x in o["working"] if x != b]} if o["op"] == "status" else o)
+                                  for o in sc if o.get("id") != b]}
